@@ -155,7 +155,7 @@ def chunks(lst, k):
 def plan(tier, seed, escalate=False):
     """the jobs of one check run: systematic enumeration of the core scenarios + sampled scenarios, then random walks"""
     if tier == 'thorough':
-        bound, maxruns, nsample, walks, wbound = 3, 12000, 200, 200, 3
+        bound, maxruns, nsample, walks, wbound = 3, 30000, 240, 300, 3
     else:
         bound, maxruns, nsample, walks, wbound = 2, 1200, 64, 30, 2
     if escalate:
